@@ -190,7 +190,7 @@ structure Item (κ : Type) where
   dist : Dist
   node : κ
   rate : Rat
-  deriving Repr
+  deriving Repr, DecidableEq
 
 /-- `distances : HashMap<Commodity, WithDistance<Decimal>>`. -/
 abbrev Table (κ : Type) := AMap κ (Dist × Rat)
@@ -235,12 +235,13 @@ def tableOf (out : κ → List (Edge κ)) (pick : Nat → List (Item κ) → Nat
 /-- parameters of a run that the Rust leaves to the heap / the hasher, plus the model's fuel. -/
 structure Cfg (κ : Type) where
   fuel : Nat
-  pick : Nat → List (Item κ) → Nat
+  /-- the pop choice; it may depend on which table is being computed (target commodity, date) and on the step -/
+  pick : κ → Date → Nat → List (Item κ) → Nat
   ord : κ → List (κ × PEntry) → List (κ × PEntry)
 
 /-- `compute_price_table(price_with, date)`. -/
 def priceTable (cfg : Cfg κ) (repo : Builder κ) (priceWith : κ) (date : Date) : Outcome Unit (Table κ) :=
-  tableOf (edgesAt cfg.ord repo date) cfg.pick cfg.fuel priceWith
+  tableOf (edgesAt cfg.ord repo date) (cfg.pick priceWith date) cfg.fuel priceWith
 
 /-- `ConversionError::RateNotFound`. -/
 inductive ConvErr (κ : Type) where
